@@ -306,7 +306,7 @@ CLAIMED["C01"] = {
 # level text of each property so that MANIFEST.json names every rule family a check runs (details: DESIGN.md §9.1, §9.2)
 ADDED = {
     "C01": "Also: every handler that looks at an operand copies it out of a field/element view first (view-read). Also: both bounds of a from loop are evaluated before a reused counter is written (skeleton).",
-    "C02": "Also: no run-time site builds a boxed present optional (including Option::map(Box::new) payloads); handlers copy operands out of views; a class never collects two members of one name (member-unique); `x op= y` is accepted only when the result type can be stored back (opassign-result); value-owing function scopes check their exit (return-required). Also: the loop counter has the type of start + step (loop-counter-type); class-typed fields are not callable (callable-field); optional compound kinds in the `==` table; index dispatch (shared with C13).",
+    "C02": "Also: no run-time site builds a boxed present optional (including Option::map(Box::new) payloads); handlers copy operands out of views; a class never collects two members of one name (member-unique); `x op= y` is accepted only when the result type can be stored back (opassign-result); value-owing function scopes check their exit (return-required). Also: the loop counter has the type of start + step (loop-counter-type); class-typed fields are not callable (callable-field); optional compound kinds in the `==` table; index dispatch (shared with C13). Also: no name gets the type of the literal `[]` (element-type).",
     "C03": "Also: a block scope never starts from the return status another arm ended with (return-scope fresh-status); function types compare their parameters with signature_check set (signature-invariance); a call is accepted only after every argument node was walked (arity); every value-into-slot check refuses `T?` for `T` and accepts `T` for `T?` (optional-direction, eq_complex evaluated in the site's configuration).",
     "C04": "Also: the arguments of a trace/log call borrow nothing that `run` holds; the index unit of string built-ins (index-unit). Also: a panicked interpreter thread never ends in a successful exit in either command (exit-status); NUL is a sampled class of the binary codec.",
     "C05": "Also: every left shift of a program integer is shifted back and compared (exact-shift); `%` and `/` are evaluated at (MIN, -1) of each signed "
